@@ -26,8 +26,9 @@ def Err.name : Err → String
 
 inductive Axis where
   | ordinal (label : Int) (vals : List Int)   -- OrdinalAxis and subclasses: one value per item
-  | other (tag : Int)                         -- any other axis metadata (linear, scan, frozen phonons …)
+  | other (tag : Int)                         -- any other axis metadata (frozen phonons, plain AxisMetadata …)
   | unknown                                   -- `UnknownAxis()`
+  | linear (tag : Int) (offset sampling : Rat) -- LinearAxis and subclasses (ScanAxis …): coordinate k = offset + k·sampling
   deriving DecidableEq, Repr, Inhabited
 
 structure Obj where
@@ -94,7 +95,7 @@ inductive Item where
 /-- how one item acts on one dimension -/
 inductive Sel where
   | drop (i : Nat)            -- integer: the dimension disappears
-  | keep (idx : List Nat)     -- slice / index list / untouched dimension
+  | keep (idx : List Nat) (fwd : Option (Int × Int))   -- slice / index list; `fwd = (start, step)` for a forward slice (`LinearAxis.__getitem__`)
   | newaxis                   -- None
   deriving DecidableEq, Repr, Inhabited
 
@@ -123,15 +124,33 @@ def gather (shape : List Nat) (data : List Int) (sels : List (List Nat)) : List 
 
 /-! ### `get_items` -/
 
-/-- `_validate_array_items` (after the items were wrapped into a tuple) -/
-def validateItems (items : List Item) (ensDims : Nat) (keepdims : Bool) : Except Err (List Item) :=
-  let items := if keepdims then items.map fun it => match it with
-      | .int i => .slice (some i) (some (i + 1)) none
-      | it => it
-    else items
-  if items.any (· == .ellipsis) then .error .not_implemented
-  else if (items.filter (· != .none)).length > ensDims then .error .runtime_error
-  else .ok items
+/-- the `keepdims` loop of `_validate_array_items`: an integer becomes `slice(i, i + 1)` (`slice(-1, None)` for -1)
+after a bounds check against the dimension it addresses (`None` items address none) -/
+def keepdimsItems : List Item → List Nat → Except Err (List Item)
+  | [], _ => .ok []
+  | .int i :: its, dims =>
+      let bad := match dims with
+        | n :: _ => decide (i < -(n : Int) ∨ i ≥ (n : Int))
+        | [] => false
+      if bad then .error .index_error
+      else match keepdimsItems its dims.tail with
+        | .ok r => .ok (.slice (some i) (if i = -1 then none else some (i + 1)) none :: r)
+        | .error e => .error e
+  | .none :: its, dims => match keepdimsItems its dims with
+      | .ok r => .ok (.none :: r)
+      | .error e => .error e
+  | it :: its, dims => match keepdimsItems its dims.tail with
+      | .ok r => .ok (it :: r)
+      | .error e => .error e
+
+/-- `_validate_array_items` (after the items were wrapped into a tuple); `dims` = ensemble shape -/
+def validateItems (items : List Item) (dims : List Nat) (keepdims : Bool) : Except Err (List Item) :=
+  match (if keepdims then keepdimsItems items dims else .ok items) with
+  | .error e => .error e
+  | .ok items =>
+    if items.any (· == .ellipsis) then .error .not_implemented
+    else if (items.filter (· != .none)).length > dims.length then .error .runtime_error
+    else .ok items
 
 /-- `list.insert(i, UnknownAxis())` for every `None` at position `i` -/
 def insertAt {α} (l : List α) (i : Nat) (x : α) : List α := l.take i ++ x :: l.drop i
@@ -144,11 +163,13 @@ def expandNones : List Item → List Axis → List Axis
   | _ :: its, a :: ens => a :: expandNones its ens
   | _ :: its, [] => expandNones its []
 
-/-- `expanded_axes_metadata[item]` (OrdinalAxis slices its values; every other axis raises TypeError ⇒ `.copy()`) -/
-def axisGet (a : Axis) (sel : List Nat) : Axis :=
-  match a with
-  | .ordinal l vs => .ordinal l (sel.map fun i => vs.getD i 0)
-  | a => a
+/-- `expanded_axes_metadata[item]`: OrdinalAxis slices its values; a LinearAxis under a forward slice (start ≥ 0, step ≥ 1, as written)
+moves its offset and scales its sampling; everything else raises TypeError ⇒ `.copy()` -/
+def axisGet (a : Axis) (sel : List Nat) (fwd : Option (Int × Int)) : Axis :=
+  match a, fwd with
+  | .ordinal l vs, _ => .ordinal l (sel.map fun i => vs.getD i 0)
+  | .linear t off samp, some (start, step) => .linear t (off + start * samp) (samp * step)   -- `LinearAxis.__getitem__`
+  | a, _ => a
 
 /-- resolve the items against the dimensions they consume; `dims` are the ensemble dimension sizes -/
 def resolve : List Item → List Nat → Except Err (List Sel)
@@ -162,11 +183,14 @@ def resolve : List Item → List Nat → Except Err (List Sel)
       | .error e, _ => .error e
       | _, .error e => .error e
   | .slice a b s :: its, n :: dims => match sliceIndices a b s n, resolve its dims with
-      | .ok idx, .ok r => .ok (.keep idx :: r)
+      | .ok idx, .ok r =>
+          let start := a.getD 0
+          let step := s.getD 1
+          .ok (.keep idx (if start < 0 || step < 1 then none else some (start, step)) :: r)
       | .error e, _ => .error e
       | _, .error e => .error e
   | .list l :: its, n :: dims => match listIndices l n, resolve its dims with
-      | .ok idx, .ok r => .ok (.keep idx :: r)
+      | .ok idx, .ok r => .ok (.keep idx none :: r)
       | .error e, _ => .error e
       | _, .error e => .error e
   | .ellipsis :: _, _ => .error .not_implemented
@@ -180,9 +204,9 @@ def selectAxes : List Sel → List Axis → List (Int × Int) → List Axis × L
         | .ordinal l vs => md ++ [(l, vs.getD i 0)]             -- `item_metadata`: {label: values[item]}
         | _ => md
       selectAxes ss as md'
-  | .keep idx :: ss, a :: as, md =>
+  | .keep idx fwd :: ss, a :: as, md =>
       let (r, md') := selectAxes ss as md
-      (axisGet a idx :: r, md')
+      (axisGet a idx fwd :: r, md')
   | .newaxis :: ss, a :: as, md =>
       let (r, md') := selectAxes ss as md
       (a :: r, md')                                             -- the inserted UnknownAxis, copied
@@ -193,19 +217,19 @@ def selIndices : List Sel → List Nat → List (List Nat)
   | .newaxis :: ss, dims => selIndices ss dims
   | _ :: _, [] => []
   | .drop i :: ss, _ :: dims => [i] :: selIndices ss dims
-  | .keep idx :: ss, _ :: dims => idx :: selIndices ss dims
+  | .keep idx _ :: ss, _ :: dims => idx :: selIndices ss dims
 
 def selShape : List Sel → List Nat → List Nat
   | [], dims => dims
   | .newaxis :: ss, dims => 1 :: selShape ss dims
   | _ :: _, [] => []
   | .drop _ :: ss, _ :: dims => selShape ss dims
-  | .keep idx :: ss, _ :: dims => idx.length :: selShape ss dims
+  | .keep idx _ :: ss, _ :: dims => idx.length :: selShape ss dims
 
 /-- `ArrayObject.get_items` + `__class__(**kwargs)` -/
 def getItems (o : Obj) (items : List Item) (keepdims : Bool) : Except Err Obj :=
   let ensDims := o.shape.length - o.baseDims
-  match validateItems items ensDims keepdims with
+  match validateItems items (o.shape.take ensDims) keepdims with
   | .error e => .error e
   | .ok items =>
     if (items.filter fun it => match it with | .list _ => true | _ => false).length > 1 ||
@@ -242,23 +266,28 @@ def expandShape? (shape : List Nat) (axes : List Nat) : Option (List Nat) :=
           | n :: rest' => some (done ++ [n], rest')
           | [] => none) (some ([], shape))).map (·.1)
 
+/-- insertion into a list sorted by position, before the first element whose position is not smaller (stable) -/
+def insertByPos (x : Int × Axis) : List (Int × Axis) → List (Int × Axis)
+  | [] => [x]
+  | y :: ys => if x.1 ≤ y.1 then x :: y :: ys else y :: insertByPos x ys
+
+/-- `sorted(zip(axis, axis_metadata), key=position)` (stable) -/
+def sortByPos (l : List (Int × Axis)) : List (Int × Axis) := l.foldr insertByPos []
+
 /-- `expand_dims(axis, axis_metadata)`; `newAxes` are the metadata items (default: one UnknownAxis per axis).
-Negative axes are normalised against the OLD rank by `normalize_axes`, then once more against the new rank by
-`validate_axis` inside `_expand_dims`; the metadata is inserted sequentially with `list.insert`. -/
+As in `numpy.expand_dims` the positions refer to the expanded array (negative axes are normalised against the NEW
+rank); positions outside the ensemble part are refused; the metadata is inserted in increasing position. -/
 def expandDims (o : Obj) (axes : List Int) (newAxes : List Axis) : Except Err Obj :=
   let nd := o.shape.length
-  let ax := normAxes axes nd
+  let ax := normAxes axes (nd + axes.length)
   let ensDims := nd - o.baseDims
-  if ax.any fun a => a ≥ ((ensDims + ax.length : Nat) : Int) then .error .runtime_error
+  if ax.any fun a => a < 0 || a ≥ ((ensDims + ax.length : Nat) : Int) then .error .runtime_error
   else
-    let ens' := (ax.zip newAxes).foldl (fun acc (a, am) => pyInsert acc a am) o.ens
-    let outN : Int := (nd + ax.length : Nat)
-    if ax.any fun a => a < -outN || a ≥ outN then .error .value_error          -- numpy AxisError from validate_axis
-    else
-      let axN := ax.map fun a => (if a < 0 then a + outN else a).toNat
-      match expandShape? o.shape axN with
-      | none => .error .stop_iteration                                          -- repeated axis: the shape iterator runs dry
-      | some shape' => check { o with ens := ens', shape := shape' }
+    let ens' := (sortByPos (ax.zip newAxes)).foldl (fun acc (a, am) => pyInsert acc a am) o.ens
+    let axN := ax.map Int.toNat
+    match expandShape? o.shape axN with
+    | none => .error .stop_iteration                                          -- repeated axis: the shape iterator runs dry
+    | some shape' => check { o with ens := ens', shape := shape' }
 
 /-- `squeeze(axis)`; `none` = all axes -/
 def squeeze (o : Obj) (axes : Option (List Int)) : Except Err Obj :=
@@ -282,19 +311,40 @@ def reduceData (shape : List Nat) (data : List Int) (axes : List Nat) : List Int
     let sels := (mi.zip shape).zipIdx.map fun ((m, n), i) => if axes.contains i then List.range n else [m]
     sumInts (gather shape data sels)
 
+/-- the entries of `l` whose index (counted from `i`) is not in `ax` -/
+def dropAt {α} : List α → Nat → List Nat → List α
+  | [], _, _ => []
+  | x :: xs, i, ax => if ax.contains i then dropAt xs (i + 1) ax else x :: dropAt xs (i + 1) ax
+
+/-- `keepdims=True`: an ordinal axis with more than one value that is reduced keeps its label only
+(`AxisMetadata(label=…, units=…)`); every other axis stays -/
+def keepAxes : List Axis → Nat → List Nat → List Axis
+  | [], _, _ => []
+  | a :: as, i, ax =>
+      (if ax.contains i then
+        (match a with
+         | .ordinal l vs => if vs.length != 1 then .other l else a
+         | a => a)
+       else a) :: keepAxes as (i + 1) ax
+
+def keepShape : List Nat → Nat → List Nat → List Nat
+  | [], _, _ => []
+  | n :: ns, i, ax => (if ax.contains i then 1 else n) :: keepShape ns (i + 1) ax
+
 /-- `_reduction("sum", axes, keepdims)` with `axes` given -/
 def reduce (o : Obj) (axes : List Int) (keepdims : Bool) : Except Err Obj :=
   let nd : Int := o.shape.length
   let ax := axes.map fun a => if a ≥ 0 then a else a + nd
   let ensDims : Int := o.shape.length - o.baseDims
+  let ensLen : Int := o.ens.length
   if ax.any fun a => a ≥ ensDims && a < nd then .error .runtime_error      -- "base axes cannot be reduced"
+  else if keepdims && (ax.any fun a => a ≥ ensLen || a < -ensLen) then .error .index_error   -- `ensemble_axes_metadata[axis]`
   else if ax.any fun a => a < 0 || a ≥ nd then .error .value_error                  -- numpy AxisError
   else if ax.eraseDups.length != ax.length then .error .value_error                         -- duplicate value in 'axis'
   else
     let axN := ax.map Int.toNat
-    let ens' := if keepdims then o.ens else (o.ens.zipIdx.filter fun (_, i) => !axN.contains i).map (·.1)
-    let shape' := if keepdims then o.shape.zipIdx.map fun (n, i) => if axN.contains i then 1 else n
-                  else (o.shape.zipIdx.filter fun (_, i) => !axN.contains i).map (·.1)
+    let ens' := if keepdims then keepAxes o.ens 0 axN else dropAt o.ens 0 axN
+    let shape' := if keepdims then keepShape o.shape 0 axN else dropAt o.shape 0 axN
     check { o with ens := ens', shape := shape', data := reduceData o.shape o.data axN }
 
 /-! ### `stack`, `concatenate` -/
@@ -306,7 +356,7 @@ def stack (os : List Obj) (newAxis : Axis) (axis : Int) : Except Err Obj :=
   | o :: _ =>
     let ensDims := o.shape.length - o.baseDims
     if axis > ensDims || axis < 0 then .error .assertion_error
-    else if (match newAxis with | .other _ => true | _ => false) then .error .value_error   -- validate_axis_metadata: only OrdinalAxis / None
+    else if (match newAxis with | .other _ => true | .linear _ _ _ => true | _ => false) then .error .value_error   -- validate_axis_metadata: only OrdinalAxis / None
     else if os.any fun p => p.shape != o.shape then .error .value_error        -- numpy: all input arrays must have the same shape
     else
       let k := axis.toNat
